@@ -128,6 +128,13 @@ pub struct RunObs {
     pub machinery: Vec<String>,
 }
 
+thread_local! {
+    /// the work item being run (recorded in replay files so that `mc replay` can re-execute it)
+    pub static CURRENT_ITEM: std::cell::RefCell<(String, Value)> = std::cell::RefCell::new((String::new(), Value::Null));
+    /// set by `mc replay`: only this scenario is run, and only this one schedule of it
+    pub static REPLAY_FILTER: std::cell::RefCell<Option<(String, Vec<u32>)>> = const { std::cell::RefCell::new(None) };
+}
+
 pub fn spill_after() -> u64 {
     std::env::var("VERIF_SPILL").ok().and_then(|s| s.parse().ok()).unwrap_or(250)
 }
@@ -162,6 +169,14 @@ pub fn explore_scenario_from(
     run: &dyn Fn(&mut Chooser, bool) -> RunObs,
 ) -> DfsStats {
     let mut states: HashSet<u64> = HashSet::new();
+    let filter = REPLAY_FILTER.with(|f| f.borrow().clone());
+    let (start, single, want_sample): (Vec<u32>, bool, bool) = match &filter {
+        Some((scn, _)) if scn != scenario_id => return DfsStats::default(),
+        Some((_, schedule)) => (schedule.clone(), true, false),
+        None => (start.to_vec(), single, want_sample),
+    };
+    let start = &start[..];
+    let (item_tier, item_json) = CURRENT_ITEM.with(|c| c.borrow().clone());
     // an activity that was ended by the point limit (it span inside the engine) is a violation of
     // whatever is being checked: nothing the engine does may fail to return
     let run = &|ch: &mut Chooser, log: bool| -> RunObs {
@@ -232,9 +247,10 @@ pub fn explore_scenario_from(
                     *n += 1;
                     let replay = if *n <= 2 {
                         json!({"property": property, "signature": sig, "scenario": scenario_id, "detail": o.detail, "desc": scenario_desc,
-                            "schedule": ch.taken, "decisions": c1.labels, "what": what, "log": o1.log})
+                            "schedule": ch.taken, "decisions": c1.labels, "what": what, "log": o1.log, "tier": item_tier, "item": item_json})
                     } else {
-                        json!({"property": property, "signature": sig, "scenario": scenario_id, "detail": o.detail, "schedule": ch.taken, "what": what})
+                        json!({"property": property, "signature": sig, "scenario": scenario_id, "detail": o.detail, "schedule": ch.taken, "what": what,
+                            "tier": item_tier, "item": item_json})
                     };
                     let v = Violation {
                         property: property.to_string(),
@@ -363,6 +379,7 @@ pub fn run_worker(check: &dyn Check, tier: Tier) {
         };
         let t0 = Instant::now();
         let mut out = ItemOut::default();
+        CURRENT_ITEM.with(|c| *c.borrow_mut() = (tier.name().to_string(), item.clone()));
         let r = std::panic::catch_unwind(std::panic::AssertUnwindSafe(|| {
             check.run_item(tier, &item, &mut out);
         }));
@@ -378,7 +395,9 @@ pub fn run_worker(check: &dyn Check, tier: Tier) {
             eprintln!("item {} took {:.2}s executions {} spill {}", item["id"], t0.elapsed().as_secs_f64(), out.executions, out.spill.len());
         }
         let mut o = stdout.lock();
-        let _ = writeln!(o, "{}", json!({"out": out}));
+        // resident set of this worker: the parent replaces a worker that has grown large
+        let rss_mb = std::fs::read_to_string("/proc/self/statm").ok().and_then(|s| s.split_whitespace().nth(1).and_then(|x| x.parse::<u64>().ok())).unwrap_or(0) * 4 / 1024;
+        let _ = writeln!(o, "{}", json!({"out": out, "rss_mb": rss_mb}));
         let _ = o.flush();
     }
 }
@@ -427,6 +446,7 @@ pub fn run_check(check: &dyn Check, tier: Tier) -> i32 {
     }
     let workers = nworkers();
     let recycle: usize = std::env::var("VERIF_RECYCLE").ok().and_then(|s| s.parse().ok()).unwrap_or(400);
+    let rss_limit_mb: u64 = std::env::var("VERIF_WORKER_RSS_MB").ok().and_then(|s| s.parse().ok()).unwrap_or(1200);
     let exe = std::env::current_exe().expect("current exe");
     let queue = Mutex::new(Queue {
         items: items.into_iter().collect(),
@@ -484,6 +504,7 @@ pub fn run_check(check: &dyn Check, tier: Tier) -> i32 {
                         && stdin.flush().is_ok()
                         && rd.read_line(&mut line).map(|n| n > 0).unwrap_or(false);
                     let parsed = if ok { serde_json::from_str::<Value>(&line).ok() } else { None };
+                    let rss_mb = parsed.as_ref().and_then(|v| v["rss_mb"].as_u64()).unwrap_or(0);
                     let out = parsed.and_then(|v| serde_json::from_value::<ItemOut>(v["out"].clone()).ok());
                     let mut q = queue.lock().unwrap();
                     q.in_flight -= 1;
@@ -516,7 +537,7 @@ pub fn run_check(check: &dyn Check, tier: Tier) -> i32 {
                     cv.notify_all();
                     drop(q);
                     served += 1;
-                    if served >= recycle {
+                    if served >= recycle || rss_mb > rss_limit_mb {
                         // bound the memory of a worker process
                         drop(stdin);
                         let _ = child.wait();
